@@ -49,4 +49,11 @@ CHECKS = {
           "(Geometry enum, concrete impls, exact similarity maps)."),
     note="Trusted: TLC; 1-D members restricted to integer-length segments; tolerance 8e-9 on a 4-unit extent.",
     technique="TLA+ exact rational centroid (dimension-dominance accumulator) enumerated by TLC; spec->impl replay", design_ref="DESIGN.md 5 C06"),
+ "C07": dict(
+    text=("Gen_Distance.tla defines Dist2 as an exact rational (0 iff the operands share a point by exact predicates, else the "
+          "minimum over segment pairs) and TLC enumerates ~6 500 operand pairs over all 10 types at 20 relative offsets "
+          "(inside a hole, nested, touching, crossing, vertex/edge/parallel approach), checking symmetry and zero-iff-shared on "
+          "every state; replay through every concrete pair, swapped, Geometry enum, representation variants, similarity maps."),
+    note="Trusted: TLC rational arithmetic (cross-multiplied comparison, products < 2^31). Tolerance 1e-9 relative on d^2; exact zero demanded.",
+    technique="TLA+ exact rational minimum distance enumerated by TLC; spec->impl replay", design_ref="DESIGN.md 5 C07"),
 }
